@@ -162,7 +162,11 @@ def to_val(v):
     if isinstance(v, int): return Val.intv(v)
     if isinstance(v, str): return STR.get(v)
     if is_expr(v): return v
-    if isinstance(v, PyCallable): return Val.opq(Val.s(STR.get('<callable ' + v.name + '>')))
+    if isinstance(v, PyCallable):
+        # module-level classes / enum members / dotted attributes may be used as opaque values; a bare lowercase name that is not bound in the
+        # environment is most likely a local the contract failed to bind (e.g. after a rename): UNDECIDED rather than a garbage value
+        if '.' in v.name or v.name[:1].isupper() or v.name.startswith('_'): return Val.opq(Val.s(STR.get('<callable ' + v.name + '>')))
+        raise Unsupported(f"name `{v.name}` is used as a value but is not bound by the contract (renamed local?)")
     raise Unsupported(f"to_val {v!r}")
 def truthy(v):
     if isinstance(v, PyBool): return v.e
@@ -323,7 +327,50 @@ class Exec:
         for pat, h in self.handlers.items():
             if pat.startswith('*.') and name.endswith(pat[1:]): return h
             if pat.endswith('.*') and name.startswith(pat[:-1]): return h
-        return None
+        return self.inline_handler(name)
+    # ---------- calls into /repo that have no contract are INLINED (DESIGN 2.3): `self._helper(...)` of the same class and module-level functions of
+    # the same file are executed at the call site with their REAL body (depth <= 3, no recursion), so extracting a helper is a harmless refactor
+    inline_scope = None          # (Source, rel path, class name or None), set by the unit
+    def inline_handler(self, name):
+        if not self.inline_scope: return None
+        src, rel, cls = self.inline_scope
+        qual = None
+        if name.startswith('self.') and name.count('.') == 1 and cls: qual = f"{cls}.{name[5:]}"
+        elif '.' not in name: qual = name
+        if qual is None: return None
+        try: fdef = src.func(rel, qual)
+        except Unsupported: return None
+        if isinstance(fdef, ast.ClassDef): return None
+        ex_self = self
+        def h(ex, st, e, recv, args, kw, k, K):
+            a = fdef.args
+            if a.vararg or a.kwarg or a.posonlyargs: raise Unsupported(f"inlining of {qual}: *args/**kwargs/positional-only parameters")
+            params = [x.arg for x in a.args]; env = {}
+            if name.startswith('self.'):
+                if not params: raise Unsupported(f"inlining of {qual}: no self parameter")
+                env[params[0]] = st.env.get('self'); params = params[1:]
+            if len(args) > len(params): raise Unsupported(f"inlining of {qual}: too many positional arguments")
+            for p_, v in zip(params, args): env[p_] = v
+            for kx, v in kw.items():
+                if kx in ('**', '*'): raise Unsupported(f"inlining of {qual}: star arguments")
+                env[kx] = v
+            defaults = dict(zip([x.arg for x in a.args][-len(a.defaults):], a.defaults)) if a.defaults else {}
+            for x, dflt in zip(a.kwonlyargs, a.kw_defaults):
+                if dflt is not None: defaults[x.arg] = dflt
+            for p_ in params + [x.arg for x in a.kwonlyargs]:
+                if p_ not in env:
+                    if p_ not in defaults or not isinstance(defaults[p_], ast.Constant): raise Unsupported(f"inlining of {qual}: no value for parameter {p_}")
+                    env[p_] = defaults[p_].value
+            def run_body(s0, k2, K2):
+                saved = s0.env; stack = saved.get('__inline_stack', ())
+                if qual in stack or len(stack) >= 3: raise Unsupported(f"inlining of {qual}: recursion or nesting deeper than 3")
+                s0.env = dict(env); s0.env['__inline_stack'] = stack + (qual,)
+                def back(s2, v): s2.env = saved; return k2(s2, v)
+                def exc(s2, x): s2.env = saved; return K2['exc'](s2, x)
+                return ex_self.block(fdef.body, s0, lambda s2: back(s2, None), {'ret': back, 'exc': exc})
+            if isinstance(fdef, ast.AsyncFunctionDef): return k(st, Tok(run_body, kind='inlined:' + qual))          # token rule: the body runs at the await
+            return run_body(st, k, K)
+        return h
     # ---------- statements
     def block(self, stmts, st, k, K):
         if not stmts: return k(st)
